@@ -1015,6 +1015,15 @@ def install(interp):
             mmods[(tp, nm)] = mm_bytes_method(nm)
         mmods[(tp, "join")] = mm_bytes_join
     mmods[(bytearray, "extend")] = mm_bytearray_extend
+    # precompiled struct.Struct objects: same models as the module-level functions, with the object's format
+    mmods[(struct.Struct, "pack")] = lambda interp, self, args, kwargs: m_struct_pack(interp, (self.format,) + tuple(args), {})
+    mmods[(struct.Struct, "unpack")] = lambda interp, self, args, kwargs: m_struct_unpack(interp, (self.format,) + tuple(args), {})
+
+    def _struct_unpack_from(interp, self, args, kwargs):
+        buf = args[0]
+        off = args[1] if len(args) > 1 else kwargs.get("offset", 0)
+        return m_struct_unpack(interp, (self.format, SymBytes.lift(buf).slice(off, off + self.size)), {})
+    mmods[(struct.Struct, "unpack_from")] = _struct_unpack_from
     mmods[(dict, "get")] = mm_dict_get
     mmods[(types.MappingProxyType, "get")] = mm_dict_get
     mmods[(types.MappingProxyType, "__contains__")] = mm_dict_contains
